@@ -175,6 +175,9 @@ def run(ctx):
     for comps in batches(G.enum_std_other((0, 3) if not big else (0, 1, 3, 7)), 48):
         run_doc(ctx, rep, corr, comps, "enum-std-float-string-bytes", rng, 0,
                 values_of=lambda c: [{"x": x, "y": 0x5A} for x in V.boundary_values(vrng, c.params[1].dop, limit=6 if not big else 14)])
+    # (c') multiplexers: every declaration order of the cases x every way of selecting a case (name, key, default by name / None)
+    for comps in batches(G.enum_mux_orders(), 32):
+        run_doc(ctx, rep, corr, comps, "enum-mux-orders", rng, 0, values_of=lambda c: G.enum_mux_values(vrng, c))
     corr.flush()
     # (d) random well-formed composites
     n_docs = 40000 if big else 3200
